@@ -834,6 +834,15 @@ type responseWriter struct {
 // WriteHeader captures the status code
 func (rw *responseWriter) WriteHeader(statusCode int) {
 	rw.statusCode = statusCode
+	// net/http's server adds a sniffed Content-Type to a response that has
+	// none. A proxied response must reach the client with the headers the
+	// backend sent, so suppress the sniffing (a nil entry is how net/http is
+	// told not to add the header).
+	if h := rw.Header(); statusCode >= 200 {
+		if _, ok := h["Content-Type"]; !ok {
+			h["Content-Type"] = nil
+		}
+	}
 	rw.ResponseWriter.WriteHeader(statusCode)
 }
 
